@@ -358,6 +358,14 @@ def r2(ctx):
                     m.sort(key=lambda ke: sum(1 for k2, e2 in m0 if e2[0] != ke[1][0] and b.reachable(e2[0], ke[1][0]) and not b.reachable(ke[1][0], e2[0])))
                     m = m[ordn:ordn + 1] if len(m) > ordn else []
                 m = [x for x in m if x[0] not in used] if "#" not in kind else m
+                if not m and variant == "InternalServiceError":
+                    # sibling of the open-coded `downcast` match: `SignatureError::from(boxed error)` - the reviewed
+                    # conversion (its shape is C14-R3 `from-boxerror/shape`) builds the error at this site
+                    cv = [c_ for c_ in b.calls(r"convert::(From::from|Into::into)$") if re.search(r"<error::SignatureError as std::convert::From<std::boxed::Box<\(?dyn std::error::Error", c_[1].get("resolved_full", "")) or re.search(r"Box<\(?dyn std::error::Error[^>]*> as std::convert::Into<error::SignatureError>", c_[1].get("resolved_full", ""))]
+                    if len(cv) == 1:
+                        total_err += 1
+                        pos.append((label, cv[0][0], None, grp, "call", b.span_of_block(cv[0][0])))
+                        continue
                 if len(m) != 1:
                     yield MISSING("C13-R2", "site-map/%s/%s" % (fn, label), "rule-site `%s` (%s matching /%s/) matched %d constructions" % (label, variant, rx, len(m)))
                     continue
